@@ -32,7 +32,9 @@ def judgeNest (depth : Nat) (op : String) (impl : List String) : Judged :=
   let implStr := " ".intercalate impl
   if (impl.headD "").startsWith "crash" then
     let what := (impl.headD "").drop 6 |>.toString
-    { model := "finishes", fails := [s!"C03:deep-nesting-{what}:{op}"], tags := [s!"nest depth={depth} op={op} crash"] }
+    -- the model has no notion of a process running out of stack, memory or time: it makes no
+    -- prediction here (agree); the Spec verdict judges the crash
+    { model := implStr, fails := [s!"C03:deep-nesting-{what}:{op}"], tags := [s!"nest depth={depth} op={op} crash"] }
   else
     let n := (kvNat impl "bytes").getD 0
     let inp := (kvNat impl "in").getD 1
